@@ -171,6 +171,16 @@ def value_for(ctx, target, pname, kind, sofar):
             return Graph([], metadata=dict(ctx.graph.metadata) if r.random() < 0.5 else None)
         if pname == 'self' and r.random() < 0.3:
             ctx.graph._top = r.choice([ctx.graph._top, None, ctx.var()])
+        if r.random() < 0.12 and ctx.graph.triples:
+            # an edited graph: a triple taken out (what was below it may no longer be connected), or an
+            # explicit top that is a target only / no variable at all
+            g = ctx.graph
+            if r.random() < 0.6:
+                t = r.choice(g.triples)
+                g.triples.remove(t)
+                g.epidata.pop(t, None)
+            else:
+                g._top = r.choice([t[2] for t in g.triples if isinstance(t[2], str)] + ['zz'])
         return ctx.graph
     if kind == 'Tree':
         return ctx.tree
